@@ -116,6 +116,11 @@ func CharSpec(t *rapid.T, o CharOpts) oracle.CharSpec {
 			}
 		}
 	}
+	if len(c.RequireSets) > 0 && len(c.RequireSets) < o.MaxReq && rapid.IntRange(0, 15).Draw(t, "covering_first") == 0 {
+		// a required set that spans the whole alphabet, listed before the others
+		all := strings.Join(c.Alphabet(), "")
+		c.RequireSets = append([]string{all}, c.RequireSets...)
+	}
 	c.ExcludeChars = poolString(t, "exclchar", pool, 0, 4)
 	minL := 1
 	if o.MinLen != 0 {
